@@ -84,7 +84,7 @@ def check(run):
         return
     if not validate_spec_on_wpt(run, binp):
         return
-    n = 6000 if run.tier == "quick" else 150000
+    n = 20000 if run.tier == "quick" else 150000
     cases = urlcorr.wpt_cases() + urlcorr.gen_cases(run.rng, n, hist_frac=0.0)
     res = urlcorr.explore(run, binp, cases)
     if res is None:
